@@ -187,6 +187,81 @@ def classify_py(data):
     return -1
 
 
+SDP = ("v=0\r\no=- 0 0 IN IP4 127.0.0.1\r\ns=x\r\nc=IN IP4 127.0.0.1\r\nt=0 0\r\n"
+       "m=video 0 RTP/AVP 96\r\na=rtpmap:96 H264/90000\r\na=control:streamid=0\r\n")
+
+
+def gen_body(rng, kind):
+    k = rng.random()
+    if kind == "sdp" and k < 0.7:
+        return SDP[:rng.choice([len(SDP), len(SDP), 60, 20])].encode()
+    if k < 0.5:
+        return ("param%d: %d\r\n" % (rng.randrange(9), rng.randrange(1000))).encode() * rng.randint(1, 4)
+    if k < 0.7:                                   # a body that looks like a header block / another request
+        return b"x\r\n\r\nOPTIONS * RTSP/1.0\r\n\r\n"[:rng.randint(3, 30)]
+    return bytes(rng.randrange(256) for _ in range(rng.choice([1, 2, 5, 17, 64, 300])))
+
+
+def gen_rtsp_messages(rng, first=True):
+    """a connection's byte stream: 1-4 RTSP requests, most with a body; returns (stream, spans of the bodies)"""
+    out, spans = b"", []
+    for i in range(rng.choice([1, 2, 2, 3, 4])):
+        m = rng.choice(["ANNOUNCE", "SET_PARAMETER", "GET_PARAMETER", "OPTIONS", "DESCRIBE", "SETUP", "PLAY", "RECORD", "TEARDOWN"])
+        body = b""
+        if m == "ANNOUNCE":
+            body = gen_body(rng, "sdp")
+        elif m in ("SET_PARAMETER", "GET_PARAMETER") and rng.random() < 0.85:
+            body = gen_body(rng, "param")
+        head = "%s rtsp://h/live/s%d RTSP/1.0\r\nCSeq: %d\r\n" % (m, rng.randrange(5), i + 1)
+        if body or rng.random() < 0.2:
+            if m == "ANNOUNCE":
+                head += "Content-Type: application/sdp\r\n"
+            head += "Content-Length: %d\r\n" % len(body)
+        head += "\r\n"
+        out += head.encode()
+        spans.append((len(out), len(out) + len(body)))
+        out += body
+    return out, spans
+
+
+def gen_http_messages(rng):
+    out, spans = b"", []
+    for i in range(rng.choice([1, 2, 2, 3])):
+        m = rng.choice(["POST", "PUT", "PATCH", "GET", "DELETE", "POST"])
+        body = gen_body(rng, "param") if m in ("POST", "PUT", "PATCH") else b""
+        head = "%s /api/v1/r%d HTTP/1.1\r\nHost: x\r\n" % (m, rng.randrange(5))
+        if body or m in ("POST", "PUT", "PATCH"):
+            head += "Content-Length: %d\r\n" % len(body)
+        head += "\r\n"
+        out += head.encode()
+        spans.append((len(out), len(out) + len(body)))
+        out += body
+    return out, spans
+
+
+def interesting_cuts(rng, n, spans):
+    """cut positions: inside the sniffed prefix, in the headers, at the header/body boundary, inside and at the end of bodies"""
+    cand = [rng.randint(1, 15), rng.randint(16, max(17, spans[0][0] - 1))]
+    for a, b in spans:
+        cand += [a, a - 2, a - 1]
+        if b > a:
+            cand += [a + 1, b - 1, b, rng.randint(a, b), rng.randint(a, b)]
+    return sorted(set(k for k in cand if 0 < k < n))
+
+
+def cut_script(data, cuts):
+    out, last = [], 0
+    for k in sorted(set(cuts)):
+        if last < k < len(data):
+            out.append([data[last:k], 0]); last = k
+    out.append([data[last:], 0])
+    return out
+
+
+def cut_in_body(cuts, spans):
+    return any(a < k < b for k in cuts for a, b in spans)
+
+
 def run(ck):
     if not ck.prepare():
         return ck.finish(rule="build failed")
@@ -359,6 +434,50 @@ def run(ck):
               nontrivial=lambda c: sum(1 for x in c[0] if x[1] > 0) >= 1,
               sig=lambda c, e, o: "concurrent-sniff-loopback", sample=1, timeout=1500)
 
+    # ---- 6. what the service reads off the connection it was handed (RTSP session reader stack, net/http reader)
+    cases, meta = [], {}
+    def add_msgs(data, spans, cuts):
+        sc = cut_script(data, cuts)
+        cases.append([sc])
+        meta[vs_key(sc)] = cut_in_body(cuts, spans)
+    def vs_key(sc):
+        return tuple(len(x[0]) for x in sc)
+    nstreams = 40 if T else 6
+    for j in range(nstreams):
+        data, spans = gen_rtsp_messages(rng) if j % 3 != 2 else gen_http_messages(rng)
+        if rng.random() < 0.15 and spans[-1][1] > spans[-1][0] + 1:          # peer goes away inside the last body
+            data = data[:rng.randint(spans[-1][0] + 1, spans[-1][1] - 1)]
+        if j < (8 if T else 2):
+            for k in range(1, len(data)):                                     # every single cut position
+                add_msgs(data, spans, [k])
+        else:
+            for k in interesting_cuts(rng, len(data), spans):
+                add_msgs(data, spans, [k])
+        for _ in range(40 if T else 25):                                      # several cuts
+            ic = interesting_cuts(rng, len(data), spans)
+            cuts = rng.sample(ic, min(len(ic), rng.randint(2, 4))) + [rng.randrange(1, len(data)) for _ in range(rng.randint(0, 3))]
+            add_msgs(data, spans, cuts)
+        add_msgs(data, spans, [])
+        add_msgs(data, spans, list(range(1, len(data))) if len(data) < 400 else [])
+    ck.stream("messages", cases, "C19_msgs_run", "C19_msgs", "C19_msgs_ok",
+              nontrivial=lambda c: len(c[0]) >= 2 and meta.get(vs_key(c[0]), False),
+              sig=lambda c, e, o: "service-reads-segmented", sample=2, timeout=1500)
+
+    cases = []
+    for j in range(10 if T else 2):
+        while True:                                   # at least one body worth cutting
+            data, spans = gen_rtsp_messages(rng) if j % 2 == 0 else gen_http_messages(rng)
+            if any(b - a >= 8 for a, b in spans):
+                break
+        ic = interesting_cuts(rng, len(data), spans)
+        cutsets = [[k] for k in ic] + [[k] for k in range(1, len(data), 1 if T else 7)]
+        for _ in range(10):
+            cutsets.append(sorted(rng.sample(ic, min(len(ic), rng.randint(2, 3)))))
+        cases.append([data, cutsets[:400], 50])
+    ck.stream("messages_loopback", cases, "C19_lmsgs_run", "C19_lmsgs", "C19_lmsgs_ok",
+              nontrivial=lambda c: len(c[1]) >= 10,
+              sig=lambda c, e, o: "service-reads-segmented-loopback", sample=1, timeout=1500)
+
     return ck.finish(
         rule="(1) random prefix tables (production RTSP/HTTP tables, small-alphabet tables with duplicates, empty strings and "
              "strings that are prefixes of one another) x inputs derived from the table (listed string + suffix, truncation, one byte "
@@ -376,7 +495,14 @@ def run(ck):
              "connections released in a deterministic interleaving (A's first fragment, complete lines of the others, A's rest; round robin; random) "
              "to goroutines running Listener.serve on gated scripted conns over one shared listener (no sleeps: the harness waits until the connection "
              "blocks for more), and the same over real TCP through listener.New/Serve; every connection must reach the service classify predicts for "
-             "its own bytes and deliver its own bytes; non-trivial = >= 2 connections, one of them split.",
+             "its own bytes and deliver its own bytes; non-trivial = >= 2 connections, one of them split. "
+             "(6) byte streams of 1-4 RTSP requests (ANNOUNCE with SDP, SET_/GET_PARAMETER with text, binary and header-look-alike bodies, body-less "
+             "methods) or HTTP requests with bodies, cut at every single position (some streams), at positions inside the sniffed prefix, in the "
+             "headers, at the header/body boundary, inside and at the end of every body, and at 2-7 positions at once, also with the peer going away "
+             "inside the last body; through Listener.serve on a scripted conn (every cut is exactly one read of the raw connection) and over real TCP "
+             "(50 ms pause per cut, eight connections at a time); the service side reads with the RTSP session's reader stack "
+             "(buffered.NewConn + receive/ReadRequest) resp. net/http's request reader; observed (method, body) of every message and the way the "
+             "stream ended must be the framing of the bytes the client wrote; non-trivial = a cut strictly inside a body.",
         trusted=["the scripted net.Conn of the harness implements the read-script semantics of Model/C19Sniffer.v (src_read)",
                  "scripted-conn and stub-service streams register rtsp.MatchRTSP() then listener.MatchHTTP() like service.listen; service.listen itself is exercised by the loopback cases with timeout -1 (hook service.VerifListen)",
                  "bytes.Buffer Write/Bytes/Len/Cap, io.ReadFull and copy are modelled from their documentation",
